@@ -6,6 +6,11 @@ VERIF = os.path.dirname(os.path.dirname(os.path.abspath(__file__)))
 ALL = ["C%02d" % i for i in range(1, 21)]
 
 CLAIMED = {
+ "C09": dict(
+   technique="TLA+ spec DnsConc.tla (singleflight join/lead/publish, cachedDnsForwarder use counting and retirement, pooled UDP sockets with buffered datagrams, one pipelined TCP connection with lowest-free pipeline ids, a server that answers any request it has seen late / twice / for another question, deadlines) model-checked exhaustively with TLC; every behaviour replayed step by step on a real DnsController with real DoUDP / DoTCP forwarders over in-memory sockets in virtual time (testing/synctest), observations compared after every step",
+   text="TLC enumerates all behaviours of 3 (thorough: 4) clients with colliding transaction ids and equal / different questions, 4 server sends and timeouts, for both transports, checking ReplyMatches, CacheTruthful, OneResolution, ClosedOnce and RetiredGetsClosed in every state; the same model with the question validation switched off must violate ReplyMatches (non-vacuity). All behaviours (quick: 8000 sampled by VERIF_SEED, thorough: 120000) are executed on the real code: replies (id, question, answer owner names), the number of requests the server received, forwarder close counts / close-while-in-use / use-after-close after every step, and the cache contents at the end. This found and fixed a defect (answers accepted on the transaction id alone).",
+   note="Races inside one step (e.g. response-slot reuse between read loop and deferred release) are not explored; DoH/DoQ/DoT handshakes are not driven; the forwarder idle janitor is not modelled. Trusted: TLC, testing/synctest.",
+   design="§3 C09"),
  "C07": dict(
    technique="TLA+ spec DnsRoute.tla: first-match reference semantics of dns.routing request/response rules (qname kinds, qtype, ip on answer records, upstream by declaration), the match-set lowering + sentinel scan of RequestMatcher/ResponseMatcher and the optimisers as implementation layer, and the controller flow (route, reject purges and answers empty, scoped cache, bounded re-ask chain) as a state machine; model-checked with TLC; every configuration rendered to dae configuration text and run through dns.New + RequestSelect/ResponseSelect, and every behaviour through DnsController.HandleWithResponseWriter_ with fake upstream servers",
    text="TLC checks exhaustively that both scans refine first-match and the optimisers preserve it over all single-rule programs of the full condition universe and all 1-2 rule programs of the reduced one, and that no rule set makes the controller ask more than MaxDnsLookupDepth times (rule sets that bounce between upstreams included), that reject answers empty without asking whatever the cache holds, and that replies are the last asked upstream's answer. Vectors: every configuration x every context (4 spellings of names x 3 qtypes x 8 answer record mixes x answering upstream incl. as-is and a second upstream declared with the same URL) against RequestSelect / ResponseSelect, comparing the decision and the identity of the returned upstream object. Behaviours: configurations + up to 4 client questions / carried-over cache entries against a real DnsController: which fake server is asked in which order, the reply's records, id and question, the depth error.",
